@@ -37,6 +37,12 @@ TRUSTED_BASE_COMMON = [
 ]
 
 
+if REPO != '/repo':
+    # run the checks against a scratch worktree (mutation testing): shadow the editable install
+    sys.path.insert(0, REPO)
+    os.environ['PYTHONPATH'] = REPO + os.pathsep + os.environ.get('PYTHONPATH', '')
+
+
 class InfraError(Exception):
     """Something in the machinery (not the property) failed: exit 2."""
 
@@ -98,6 +104,11 @@ class Ctx:
         self.rng = np.random.default_rng(seed)
         kf = os.path.join(VERIF, 'known_findings.json')
         self.known = json.load(open(kf)) if os.path.exists(kf) else {'findings': []}
+        kd = os.path.join(VERIF, 'known_findings.d')
+        if os.path.isdir(kd):
+            for fn in sorted(os.listdir(kd)):
+                if fn.endswith('.json'):
+                    self.known['findings'] += json.load(open(os.path.join(kd, fn))).get('findings', [])
 
     # ------------------------------------------------------------------ build
     def build_repo(self):
